@@ -79,6 +79,54 @@ CLAIMED = {
   note="Trusted: Lean kernel + standard axioms; harness. PSD-ness after binary64 rounding is measured, not proven (partial).",
   technique="Lean 4 proof (invariant by induction over histories) + long-run float histories on the implementation",
   design="5 C09"),
+ "C02": dict(
+  text="Lean 4 theorems (FormakVerif.C02: accessor_roundtrip, body_sound, jacobian_spec_entry) prove that accessors numbered by enumerate(layout) "
+       "with a constructor filling slots in layout order make set-by-name = read-by-name for any declaration, that a well-scoped generated body is "
+       "total and equals its inlined form, and that the specification each Jacobian body is checked against holds d out_i / d wrt_j at (i,j). Tie "
+       "(translator): every function body of the header/source generated from the working tree is parsed back into a Program and checked by the "
+       "Lean driver (WellScoped, complete row-major target grid, exact agreement with the definition / Lean's own derivative at rational points); "
+       "(correspondence) every unit is compiled with g++ and evaluated with inputs set through named option fields and outputs read through named "
+       "accessors against sympy by name, for all four control/calibration presences, 0-3 sensors, CSE on/off, Model and EKF generators.",
+  note="Trusted: Lean kernel + standard axioms; Lean interpreter for per-unit checks; cparse.py translator; g++ + Eigen stand-in instead of clang+Eigen; "
+       "sympy ccode. Per-block agreement is a randomised identity test at 4 rational points, not a symbolic proof.",
+  technique="Lean 4 proof (layout/accessor round-trip, CSE soundness) + translator from generated C++ text + compiled differential correspondence",
+  design="5 C02"),
+ "C07": dict(
+  text="Lean 4 theorems (FormakVerif.C07: predict_same, update_same, decision_same, decision_same_disabled) prove that the Python-shaped and the "
+       "generated-C++-shaped prediction, update and accept/reject functions are the same function in exact arithmetic. Tie: the same definition "
+       "compiled both ways (g++), driven through chains of prediction/update steps on identical binary64 inputs; state, covariance, stored "
+       "innovation and decision compared by name.",
+  note="Trusted: Lean kernel + standard axioms; harness; Eigen stand-in (Gauss-Jordan inverse) vs numpy/LAPACK, 1e-9 relative tolerance on "
+       "well-conditioned chains (cond(P) <= 1e5).",
+  technique="Lean 4 proof (associativity via Mathlib matrices) + Python-vs-compiled-C++ differential chains",
+  design="5 C07"),
+ "C08": dict(
+  text="Lean 4 theorems (FormakVerif.C08: block_eq_inlined, result_eq_inlined, wellScoped_total, on_off, off_computes) prove for every basic block "
+       "that temporaries assigned once, in order, from inputs and earlier temporaries make the block total and equal to its inlined body, and that "
+       "two blocks computing the same statements (CSE on / off) agree on every input. Tie (translator): every post-CSE block the current tree "
+       "produces - Python blocks recorded at the lambdify seam, C++ bodies parsed from the generated source - is checked in Lean (WellScoped + exact "
+       "agreement at rational points) on a nested-share stream; numeric on/off comparison of all Python and compiled C++ outputs.",
+  note="Trusted: Lean kernel + standard axioms; Lean interpreter; translators; sympy cse/simplify are parameters checked per instance.",
+  technique="Lean 4 proof (substitution lemma for straight-line programs) + translators (lambdify seam, generated C++ text)",
+  design="5 C08"),
+ "C12": dict(
+  text="Lean 4 theorems (FormakVerif.C12: arity over all four control x calibration combinations by decide; tick_eq_byhand from the C11 refinement) "
+       "plus an exhaustive tie over the finite configuration space {control} x {calibration} x sensors {0,1,3} x max_dt {default, other}: generate, "
+       "compile with static_assert(ManagedFilter<...>::compatible), tick with/without readings and compare bit-for-bit with by-hand calls of the "
+       "generated filter's functions along the Lean step plan.",
+  note="Trusted: Lean kernel; g++ template instantiation / overload resolution; Eigen stand-in; the arity table is hand-extracted and validated by "
+       "the compile step.",
+  technique="Lean 4 proof (finite table by decide + refinement corollary) + exhaustive compile-and-run over configurations",
+  design="5 C12"),
+ "C13": dict(
+  text="Lean 4 theorems (FormakVerif.C13: stores_by_name, rejects_unknown, accepts_known, shape, covariance_by_name, decl_order, rename_invariant) "
+       "prove for every name list and keyword set that construction stores each value under its own name, refuses unknown names and wrong shapes, "
+       "defaults the rest, and - via the by-name refinement of C01 - that every injective renaming of a model's symbols leaves each named output "
+       "unchanged although the layout is permuted. Tie: constructor round-trips vs the Lean bind functions; metamorphic renamed / re-declared twins "
+       "through the Python model and filter and through compiled generated C++ (named accessors).",
+  note="Trusted: Lean kernel + standard axioms; harness; g++/stand-in for the C++ twins.",
+  technique="Lean 4 proof (refinement to by-name spec; equivariance under injective renaming) + metamorphic correspondence",
+  design="5 C13"),
 }
 REASONS_TODO = "check not built yet in this round (see DESIGN.md section 10 build order); no claim is made"
 
